@@ -238,12 +238,12 @@ func checkC04(c *Ctx) {
 		if o := f.Object(); o != nil && o.Exported() {
 			continue
 		}
-		if !strings.HasSuffix(f.Name(), "SeatID") {
+		if !strings.HasSuffix(fnName(f), "SeatID") {
 			// role: unexported method (start seat) → seat; recognised structurally below
 		}
 		if h := analyseScanHelper(p, f); h != nil {
 			helpers[f] = h
-			c.Check(h.OK, "R5", "scan-helper:"+f.Name(), p.Pos(f.Pos()), fmt.Sprintf("forward=%v predicate {%s}", h.Forward, h.Pred), "circular scan helper has the wrong shape: "+h.Why)
+			c.Check(h.OK, "R5", "scan-helper:"+fnName(f), p.Pos(f.Pos()), fmt.Sprintf("forward=%v predicate {%s}", h.Forward, h.Pred), "circular scan helper has the wrong shape: "+h.Why)
 		}
 	}
 	// literal-modulus helpers are not recognised as scans by key shape; make sure every
@@ -265,7 +265,7 @@ func checkC04(c *Ctx) {
 			if loops {
 				nScan++
 				if helpers[f] == nil {
-					c.Bad("R5", "scan-helper:"+f.Name(), p.Pos(f.Pos()), "a seat scan whose position is not (start ± i) modulo the manager's seat count")
+					c.Bad("R5", "scan-helper:"+fnName(f), p.Pos(f.Pos()), "a seat scan whose position is not (start ± i) modulo the manager's seat count")
 				}
 			}
 		}
@@ -328,7 +328,7 @@ func checkC04(c *Ctx) {
 		bad := 0
 		for _, im := range imps {
 			if im.Mut == nil {
-				c.Undecided("R3", f.Name(), p.Pos(f.Pos()), "path enumeration aborted")
+				c.Undecided("R3", fnName(f), p.Pos(f.Pos()), "path enumeration aborted")
 				bad++
 				continue
 			}
@@ -336,10 +336,10 @@ func checkC04(c *Ctx) {
 				continue
 			}
 			bad++
-			c.Bad("R3", f.Name()+":"+describeMut(p, im.Mut)+"→"+describeExit(p, f, im.Exit), p.InstrPos(im.Mut), fmt.Sprintf("a seat id is moved (%s) on a path that then refuses the rotation at %s", instrText(p, im.Mut), p.InstrPos(im.Exit)), "path "+p.TrailString(f, im.Trail))
+			c.Bad("R3", fnName(f)+":"+describeMut(p, im.Mut)+"→"+describeExit(p, f, im.Exit), p.InstrPos(im.Mut), fmt.Sprintf("a seat id is moved (%s) on a path that then refuses the rotation at %s", instrText(p, im.Mut), p.InstrPos(im.Exit)), "path "+p.TrailString(f, im.Trail))
 		}
 		if bad == 0 {
-			c.Ok("R3", f.Name(), p.Pos(f.Pos()), "no seat-id store on any path to a refusal")
+			c.Ok("R3", fnName(f), p.Pos(f.Pos()), "no seat-id store on any path to a refusal")
 		}
 	}
 	// wrapper refuses when uninitialised
@@ -724,7 +724,7 @@ func checkEligibility(c *Ctx, rule string) {
 	p := c.P
 	var act *ssa.Function
 	for _, f := range p.Funcs {
-		if f.Name() == "Active" && f.Signature.Recv() != nil && namedOf(f.Signature.Recv().Type()) != nil && namedOf(f.Signature.Recv().Type()).Obj().Name() == "SeatPlayer" {
+		if fnName(f) == "Active" && f.Signature.Recv() != nil && namedOf(f.Signature.Recv().Type()) != nil && namedOf(f.Signature.Recv().Type()).Obj().Name() == "SeatPlayer" {
 			act = f
 		}
 	}
@@ -842,7 +842,7 @@ func checkActiveCount(c *Ctx, f *ssa.Function) {
 			}
 		}
 	}
-	c.Check(ok, "R6", "active-count-definition:"+f.Name(), p.Pos(f.Pos()), "counts seats with sp != nil ∧ sp.Active()", d)
+	c.Check(ok, "R6", "active-count-definition:"+fnName(f), p.Pos(f.Pos()), "counts seats with sp != nil ∧ sp.Active()", d)
 }
 
 // symIsParam: the sym denotes the given parameter (directly or through its spill slot).
@@ -959,7 +959,7 @@ func checkWrapCounters(c *Ctx, rule string, inScope func(f *ssa.Function) bool, 
 						}
 					}
 				}
-				c.Check(bad == "", rule, "wrap-counter:"+f.Name()+"@"+fmt.Sprintf("b%d", ind.Phi.Block().Index), p.InstrPos(ind.Phi), "counter past one circle used only modulo the seat count",
+				c.Check(bad == "", rule, "wrap-counter:"+fnName(f)+"@"+fmt.Sprintf("b%d", ind.Phi.Block().Index), p.InstrPos(ind.Phi), "counter past one circle used only modulo the seat count",
 					"a loop counter that runs past the last seat ("+p.Sym(v).String()+") is used as if it were a seat id without being reduced modulo the seat count: "+bad)
 			}
 		}
